@@ -12,9 +12,11 @@ echo
 echo "| change | check | tier | rc | wall | first signatures |"
 echo "|---|---|---|---|---|---|"
 } > $OUT
+# ONLY="C01 C02": restrict to these properties (several streams can then run side by side, each with its own OUT)
 for d in /verif/seeded/*/; do
   n=$(basename $d)
   [ -f "$d/patch.diff" ] || continue
+  if [ -n "$ONLY" ]; then case " $ONLY " in *" $(echo $n | cut -d- -f1) "*) ;; *) continue;; esac; fi
   # seeded/<name>/checks names the check(s) that own the violated behaviour when that is not the property the
   # sub-agent was asked about (e.g. a stale-cache history delivered for C02 is a C14 violation)
   extra=""; [ -f "$d/checks" ] && extra=$(cat "$d/checks")
